@@ -159,10 +159,11 @@ def normalize_hostname(hostname, normalize_amp=True):
     while hostname:
         previous_hostname = hostname
 
-        if normalize_amp and hostname.startswith("amp-"):
+        # NOTE: same as normalize_url: the last irrelevant part is kept
+        if normalize_amp and hostname.startswith("amp-") and len(hostname) > 4:
             hostname = hostname[4:]
 
-        hostname = pattern.sub("", hostname)
+        hostname = pattern.sub("", hostname) or hostname
 
         if hostname == previous_hostname:
             break
@@ -424,17 +425,22 @@ def normalize_url(
     while hostname:
         previous_hostname = hostname
 
-        if normalize_amp and hostname.startswith("amp-"):
+        # NOTE: a host made only of irrelevant parts ("www.", "amp-") keeps the
+        # last one, else nothing would be left of it
+        if normalize_amp and hostname.startswith("amp-") and len(hostname) > 4:
             hostname = hostname[4:]
 
         if strip_irrelevant_subdomains:
-            hostname = re.sub(
+            stripped_hostname = re.sub(
                 IRRELEVANT_SUBDOMAIN_AMP_RE
                 if normalize_amp
                 else IRRELEVANT_SUBDOMAIN_RE,
                 "",
                 hostname,
             )
+
+            if stripped_hostname:
+                hostname = stripped_hostname
 
         if hostname == previous_hostname:
             break
